@@ -242,11 +242,17 @@ macro_rules! zoo_cfg {
 
 macro_rules! zoo_lookup {
     (true, $Pr:ty, $P:expr, $src:expr, $max_fast:expr) => {{
-        let n = (2 + $src.below_usize(30)).min($max_fast);
-        let tab = valid_float_table($src, n);
+        // (the largest choice stands for the maximal table at P = 8: 2^P symbols of one quantum each, index type exactly full)
+        let raw_n = $src.below_usize(30);
+        let full = $P == 8 && raw_n >= 27;
+        let n = if full { 256 } else { (2 + raw_n).min($max_fast) };
+        let tab = if full { vec![1.0; n] } else { valid_float_table($src, n) };
+        let ones: Vec<$Pr> = vec![1 as $Pr; if full { n } else { 0 }];
         if $src.bool() {
             // built by its own constructor or (odd n) by converting a searched model
-            let built = if n % 2 == 0 {
+            let built = if full {
+                ContiguousLookupDecoderModel::<$Pr, _, _, $P>::from_nonzero_fixed_point_probabilities(ones.iter(), false)
+            } else if n % 2 == 0 {
                 ContiguousLookupDecoderModel::<$Pr, _, _, $P>::from_floating_point_probabilities_fast(&tab, None)
             } else {
                 ContiguousCategoricalEntropyModel::<$Pr, _, $P>::from_floating_point_probabilities_fast(&tab, None).map(|m| m.to_lookup_decoder_model())
@@ -270,7 +276,9 @@ macro_rules! zoo_lookup {
             }
         } else {
             let syms: Vec<i64> = (0..n as i64).map(|i| 5000 - 11 * i).collect();
-            let built = if n % 2 == 0 {
+            let built = if full {
+                NonContiguousLookupDecoderModel::<i64, $Pr, _, _, $P>::from_symbols_and_nonzero_fixed_point_probabilities(syms.iter().cloned(), ones.iter(), false)
+            } else if n % 2 == 0 {
                 NonContiguousLookupDecoderModel::<i64, $Pr, _, _, $P>::from_symbols_and_floating_point_probabilities_perfect(syms.iter().cloned(), &tab)
             } else {
                 NonContiguousCategoricalDecoderModel::<i64, $Pr, _, $P>::from_symbols_and_floating_point_probabilities_perfect(syms.iter().cloned(), &tab)
